@@ -133,6 +133,12 @@ def checkUnused(pkgMeta, pkgPath):
     pkgWorkspace = os.path.join(pkgPath, "workspace")
     return all((not sameWorkspace(user, pkgWorkspace)) for user in pkgMeta.get("users", []))
 
+def loadRepoMeta(f):
+    # A repo.json that was just created is still empty if somebody else got
+    # the lock before its creator.
+    content = f.read()
+    return json.loads(content) if content else {}
+
 class NullShare:
     def __init__(self):
         self.quota = 0
@@ -184,7 +190,7 @@ class LocalShare:
 
     def __addPackage(self, buildId, size):
         def update(f):
-            meta = json.load(f)
+            meta = loadRepoMeta(f)
             meta.setdefault("pkgs", {})[asHexStr(buildId)] = size
             f.seek(0)
             f.truncate()
@@ -203,9 +209,8 @@ class LocalShare:
             except FileNotFoundError:
                 # Unusual case: does not exist yet -> create atomically.
                 try:
-                    with OpenLocked(fn, "x", True) as f:
-                        json.dump({"pkgs" : {asHexStr(buildId) : size}}, f)
-                        return size
+                    with OpenLocked(fn, "x+", True) as f:
+                        return update(f)
                 except FileExistsError:
                     # Almost impossible case: lost creation race -> update
                     with OpenLocked(fn, "r+", True) as f:
@@ -338,7 +343,7 @@ class LocalShare:
             # and usage of packages.
             candidates = []
             with OpenLocked(os.path.join(self.__path, "repo.json"), "r+", True) as rf:
-                repoMeta = json.load(rf)
+                repoMeta = loadRepoMeta(rf)
 
                 # Scan all packages
                 for pkg, size in repoMeta.get("pkgs", {}).items():
